@@ -108,7 +108,7 @@ func runC15(rc *RC) {
 	// flushed when the close request arrives and the closing end's reader gets them before end-of-file
 	lazyTail := !wrap && closer < 2 && ch.Chance("workload", 1, 3)
 	rbuf := []int{1, 2, 7, 64, 1000, 70000}[ch.Int("workload", 6)]
-	sid := "sid" + strconv.Itoa(ch.Int("workload", 1000))
+	sid := "sid" + strconv.Itoa(ch.Int("workload", 1000)) + c06IDTail(ch) // session ids are opaque strings too
 	overflow := !wrap && acceptMode != 5 && ch.Chance("workload", 1, 6)
 	// the opener closes as soon as its own data is out, without waiting for the acceptor's writer (acknowledged carrier:
 	// that writer is inside Write, waiting for acknowledgements, most of the time)
